@@ -121,4 +121,72 @@ mod verif_c10 {
         std::mem::forget(t);
     }
     //@END
+    /// a dictionary that offers a grammar (default character classes, empty matrix) and no plugins: enough to analyse the empty text
+    struct GrammarOnly {
+        g: Grammar<'static>,
+    }
+    impl DictionaryAccess for GrammarOnly {
+        fn grammar(&self) -> &Grammar<'_> {
+            &self.g
+        }
+        fn lexicon(&self) -> &LexiconSet<'_> {
+            unreachable!()
+        }
+        fn input_text_plugins(&self) -> &[Box<dyn InputTextPlugin + Sync + Send>] {
+            &[]
+        }
+        fn oov_provider_plugins(&self) -> &[Box<dyn OovProviderPlugin + Sync + Send>] {
+            &[]
+        }
+        fn path_rewrite_plugins(&self) -> &[Box<dyn PathRewritePlugin + Sync + Send>] {
+            &[]
+        }
+    }
+
+    fn stale_nodes() -> Vec<ResultNode> {
+        use crate::analysis::inner::Node;
+        use crate::dic::word_id::WordId;
+        let k: u8 = kani::any();
+        kani::assume(k <= 2);
+        let mut v = Vec::with_capacity(2);
+        // no loop over the symbolic count (the harness needs a large unwinding bound for std::mem::swap of the buffer struct)
+        if k >= 1 {
+            v.push(ResultNode::new(Node::new(0, 1, 1, 1, 0, WordId::from_raw(kani::any())), kani::any(), 0, 1, Default::default()));
+        }
+        if k >= 2 {
+            v.push(ResultNode::new(Node::new(1, 2, 1, 1, 0, WordId::from_raw(kani::any())), kani::any(), 1, 2, Default::default()));
+        }
+        v
+    }
+
+    /// Whatever the recycled result vector of the tokenizer and the caller's list hold (stale morphemes of earlier calls, as the
+    /// swapping between tokenizer and list leaves them), analysing the EMPTY text yields no morphemes - do_tokenize returns
+    /// before the path is rebuilt, so only `reset` can have emptied the vector.
+    //@H c10_empty_text_after_history
+    #[kani::proof]
+    #[kani::unwind(6)]
+    fn c10_empty_text_after_history() {
+        use crate::dic::connect::ConnectionMatrix;
+        let g = Grammar::verif_with_matrix(ConnectionMatrix::verif_from_vec(Vec::new(), 0, 0));
+        let mut t = StatefulTokenizer::create(GrammarOnly { g }, false, any_mode());
+        let stale_t = stale_nodes();
+        let kt = stale_t.len();
+        t.top_path = Some(stale_t);
+        let mut list = stale_nodes();
+        let kl = list.len();
+        t.reset().push_str("");
+        let r = t.do_tokenize();
+        assert!(r.is_ok(), "the empty text is analysed successfully");
+        // what collect_results / swap_result hands to the caller is the tokenizer's result vector (swap_result itself is three
+        // std::mem::swap calls; swapping the whole InputBuffer struct needs an 80-fold unwinding of every loop, measured > 10 GB)
+        std::mem::swap(t.top_path.as_mut().unwrap(), &mut list);
+        assert!(list.is_empty(), "the empty text yields no morphemes, whatever tokenizer and list processed before");
+        assert!(t.input.current().is_empty() && t.input.original().is_empty());
+        kani::cover!(kt == 2 && kl == 0, "stale morphemes on the tokenizer side of the swap");
+        kani::cover!(kt == 0 && kl == 2, "stale morphemes in the reused list");
+        std::mem::forget(r);
+        std::mem::forget(list);
+        std::mem::forget(t);
+    }
+    //@END
 }
